@@ -6,6 +6,7 @@ import Casket.Proofs.ParserPos
 import Casket.Proofs.ParserRT
 import Casket.Proofs.ParserSplice
 import Casket.Proofs.ParserSpliceM
+import Casket.Proofs.ParserRTNB
 import Casket.Proofs.ParserCycle
 import Casket.Proofs.Env
 import Casket.Proofs.Lexer
@@ -230,7 +231,8 @@ directives with any arguments and arbitrarily nested sub-blocks, laid out in lin
 (`ParserRT.blockOK`: conditions on the tokens' files and line numbers only, so every layout and every mix of
 inline / snippet / imported origins that yields such tokens is covered) — `Parse` returns exactly those blocks:
 the keys in order (commas stripped) and, per directive name, the directive's tokens in order.
-(Braced form of server blocks; `validDirectives = nil`; tokens free of `{$`/`{%` references.) -/
+(Braced form of server blocks — the brace-less single-block form is `C10_parse_roundtrip_braceless`;
+`validDirectives = nil`; tokens free of `{$`/`{%` references.) -/
 theorem C10_parse_roundtrip (cfg : Cfg) (hf : 0 < cfg.envFuel) (hv : cfg.valid = none) (fn : String) (bs : List WBlock)
     (hall : ∀ b ∈ bs, blockOK b = true) (fuel : Nat) (hfuel : (flatten bs).length + 1 ≤ fuel) :
     parseTokens cfg fuel fn (flatten bs) = .ok (bs.map expectedBlock) :=
@@ -267,6 +269,33 @@ example :
     blockOK b = true ∧
     (expectedBlock b).keys = [[0x68, 0x6F, 0x73, 0x74], [0x62]] ∧
     (expectedBlock b).tokens.map (fun p => (p.1, p.2.length)) = [([0x64, 0x69, 0x72], 6), ([0x6C, 0x6F, 0x67], 1)] := by
+  decide
+
+/-- The brace-less single-block form: a configuration written as ONE server block without braces — keys on the first
+line(s), then at least one directive, each as in `C10_parse_roundtrip`, to the end of the input — parses to exactly that
+block (`expectedE b` = `expectedBlock` of the braced form, whatever the braces: `expectedE_eq`).  `addresses()` stops on
+the first token of the line after the keys, `blockContents()` steps back one token, `directives()` runs to the end of the
+input.  (`validDirectives = nil`; tokens free of `{$`/`{%` references; a block of keys only is not covered.) -/
+theorem C10_parse_roundtrip_braceless (cfg : Cfg) (hf : 0 < cfg.envFuel) (hv : cfg.valid = none) (fn : String) (b : WBlockE)
+    (hok : blockEOK b = true) (fuel : Nat) (hfuel : 2 * b.toks.length + 4 ≤ fuel) :
+    parseTokens cfg fuel fn b.toks = .ok [expectedE b] :=
+  parseTokens_nb cfg hf hv fn b hok fuel hfuel
+
+/-- … and from the text, composing with `C10_lex_render` as `C10_parse_roundtrip_text` does -/
+theorem C10_parse_roundtrip_braceless_text (cfg : Cfg) (hf : 0 < cfg.envFuel) (hv : cfg.valid = none) (fn : String)
+    (input : Bytes) (b : WBlockE) (hlex : lex input = b.toks) (hok : blockEOK b = true) (fuel : Nat)
+    (hfuel : 2 * b.toks.length + 4 ≤ fuel) :
+    parse cfg fuel fn input = .ok [expectedE b] := by
+  unfold parse; rw [hlex]; exact parseTokens_nb cfg hf hv fn b hok fuel hfuel
+
+/-- non-vacuity (a test, by evaluation): `host, b⏎gzip⏎log a {⏎ x⏎}⏎` is such a configuration -/
+example :
+    let t (l : Nat) (s : List UInt8) : Token := ⟨"", l, s⟩
+    let b : WBlockE := ⟨[t 1 [104, 111, 115, 116, 44], t 1 [98]],
+      [⟨t 2 [103, 122, 105, 112], []⟩, ⟨t 3 [108, 111, 103], [t 3 [97], t 3 lbrace, t 4 [120], t 5 rbrace]⟩]⟩
+    lex [104, 111, 115, 116, 44, 32, 98, 10, 103, 122, 105, 112, 10, 108, 111, 103, 32, 97, 32, 123, 10, 32, 120, 10, 125, 10] = b.toks ∧
+    blockEOK b = true ∧ (expectedE b).keys = [[104, 111, 115, 116], [98]] ∧
+    (expectedE b).tokens.map (fun p => (p.1, p.2.length)) = [([103, 122, 105, 112], 1), ([108, 111, 103], 5)] := by
   decide
 
 /-- Structure preservation ACROSS an import.  A server block one run of whose directives has been moved, as whole
